@@ -320,6 +320,59 @@ def run_alias(job, acc):
 
 
 # ----------------------------------------------------------------------
+# a leaf port (the port IS the variable) that sets falsy values
+
+FALSY = (0, False, '', [], {}, 0.0, None)
+
+
+def run_leaf_falsy(job, acc):
+    _, ti, place, vi = job
+    kinds = {k: (mk, topos) for k, mk, topos in shapes.port_kinds()}
+    topo, mind = kinds['leaf'][1][ti]
+    val = FALSY[vi]
+    case = {'shape': 'leaf-falsy', 'job': job}
+    acc.case(key=job, outcome='leaf-falsy')
+    node = rr.normalize(tuple(place) + tuple(topo))
+    if node is None:
+        return
+    processes, topology, state = {}, {}, {}
+    put(processes, tuple(place) + ('proc',), {
+        'cls': 'P', 'pid': 'proc', 'ts': 1,
+        'schema': {'flag': {'_default': 5, '_updater': 'set',
+                            '_emit': True},
+                   'other': {'n': shapes.leaf(1)}},
+        'update': {'flag': {'$lit': val}, 'other': {'n': 1}}})
+    put(topology, tuple(place) + ('proc',),
+        {'flag': tuple(topo), 'other': ('elsewhere',)})
+    put(state, node, 5)
+    ex = worlds.execute({'processes': processes, 'topology': topology,
+                         'state': state, 'script': [('update', 1)]})
+    if ex.error:
+        acc.violate(fw.violation(
+            'C06.crash', f'leaf-falsy:{type(ex.error[2]).__name__}',
+            f'{job}: unexpected {ex.error[2]!r}', case))
+        return
+    tree = worlds.probes.pure(ex.engine.state.get_value())
+    got = rr.get_in(tree, node)
+    if got != val or type(got) is not type(val):
+        acc.violate(fw.violation(
+            'C06.write', 'leaf-port-update-with-falsy-value-lost',
+            f'leaf port wired to {topo} at {place} returned the update '
+            f'{val!r} (updater set): the node holds {got!r}', case))
+
+
+def leaf_falsy_jobs():
+    out = []
+    kinds = {k: (mk, topos) for k, mk, topos in shapes.port_kinds()}
+    for ti, (topo, mind) in enumerate(kinds['leaf'][1]):
+        for place in shapes.PLACEMENTS:
+            if len(place) >= mind:
+                for vi in range(len(FALSY)):
+                    out.append(('leaf-falsy', ti, tuple(place), vi))
+    return out
+
+
+# ----------------------------------------------------------------------
 # ports rewired through the store API (Store.connect)
 
 REWIRES = {
@@ -359,10 +412,20 @@ def run_rewire(job, acc):
         'schema': {'t': {'a': leaf(0), 'b': leaf(0)},
                    't1': {'c': leaf(0)}, 'u': {'x': leaf(0)}},
         'update': {}})
+    # a twin with the same wiring - given as THE SAME dictionary object -
+    # is never rewired: it keeps reading and writing the old nodes
+    twin = worlds.probes.Probe({
+        'pid': 'twin', 'ts': 1, 'log_states': False,
+        'schema': {'p0': {'a': leaf(0), 'b': leaf(0)},
+                   'p1': {'c': leaf(0)}},
+        'update': {'p0': {'a': 1, 'b': 10}, 'p1': {'c': 100}}})
+    wiring = {'p0': ('s',), 'p1': ('s1',)}
     processes, topology, state = {}, {}, {}
     put(processes, place + ('proc',), proc)
+    put(processes, place + ('twin',), twin)
     put(processes, place + ('decl',), decl)
-    put(topology, place + ('proc',), {'p0': ('s',), 'p1': ('s1',)})
+    put(topology, place + ('proc',), wiring)
+    put(topology, place + ('twin',), wiring)
     put(topology, place + ('decl',), {'t': ('t',), 't1': ('t1',),
                                        'u': ('deep', 'u')})
     values = {('s', 'a'): 1, ('s', 'b'): 2, ('s1', 'c'): 3,
@@ -389,8 +452,12 @@ def run_rewire(job, acc):
             else:
                 wired[port_path] = target
 
+    twin_wired = dict(wired)
+
     def tick():
         for var, node in wired.items():
+            values[node] += delta[var]
+        for var, node in twin_wired.items():
             values[node] += delta[var]
     try:
         store = generate_state(processes, topology, state)
@@ -433,6 +500,9 @@ def run_rewire(job, acc):
 
 
 def run_job(shape, acc):
+    if isinstance(shape, tuple) and shape[0] == 'leaf-falsy':
+        run_leaf_falsy(shape, acc)
+        return
     if isinstance(shape, tuple) and shape[0] == 'rewire':
         run_rewire(shape, acc)
         return
@@ -447,12 +517,15 @@ def run_job(shape, acc):
 
 def run(ctx):
     return ctx.map(run_job, all_shapes(ctx) + ['replaced-store'] +
-                   alias_jobs() + rewire_jobs())
+                   alias_jobs() + rewire_jobs() + leaf_falsy_jobs())
 
 
 def replay(case):
     acc = fw.Acc()
-    if case['shape'] == 'rewire':
+    if case['shape'] == 'leaf-falsy':
+        j = case['job']
+        run_leaf_falsy((j[0], j[1], tuple(j[2]), j[3]), acc)
+    elif case['shape'] == 'rewire':
         j = case['job']
         run_rewire(tuple(j[:4]) + (tuple(j[4]),), acc)
     elif case['shape'] == 'alias':
@@ -463,3 +536,7 @@ def replay(case):
     else:
         check_shape(case['shape'], acc)
     return [v for exs in acc.viol_examples.values() for v in exs]
+
+
+RULE += (
+    " Leaf-falsy family: a leaf port with the set updater returns 0, False, '', [], {}, 0.0, None for every leaf topology and placement. The rewire family includes a twin process given THE SAME wiring dictionary object, which must stay wired as it was.")
